@@ -32,6 +32,18 @@
             if a % k == 0 { 0 } else { k - a % k }
         }
 
+        pub proof fn lemma_until_aligned_lands(a: int, k: int)
+            requires k > 0
+            ensures (a + until_aligned(a, k)) % k == 0
+        {
+            vstd::arithmetic::div_mod::lemma_fundamental_div_mod(a, k);
+            if a % k != 0 {
+                assert(a + (k - a % k) == k * (a / k + 1)) by (nonlinear_arith) requires a == k * (a / k) + a % k;
+                vstd::arithmetic::div_mod::lemma_mod_multiples_basic(a / k + 1, k);
+                assert(k * (a / k + 1) == (a / k + 1) * k) by (nonlinear_arith);
+            }
+        }
+
         pub open spec fn defined<T>(l: &asm::DefList<T>, r: Option<util::ItemRef<T>>) -> bool {
             r is Some && (r->0).0 < l.defs@.len() && l.defs@[(r->0).0 as int] is Some
         }
